@@ -1,5 +1,5 @@
 \* three sheets, 2x2 window, at most 2 cells anywhere, any sheet active
-CONSTANTS NSheets = 3 MaxR = 2 MaxC = 2 MaxCells = 2 FreeLen = 0 Escape = TRUE Record = FALSE
+CONSTANTS NSheets = 3 MaxR = 2 MaxC = 2 MaxCells = 2 FreeLen = 0 Escape = TRUE Overwrite = TRUE Record = FALSE
 CONSTANTS Values <- SmallValues FreeAlphabet <- NoFree
 SPECIFICATION Spec
 INVARIANTS TypeOK InStep ParsedEqualsGrid Rectangular WellFormed FoldAgrees
